@@ -365,13 +365,16 @@ func (r *Run) Guard(what string, fn func()) {
 // call is a yield point (also when the middleware logs inside a critical section).
 type SlowLogger struct{}
 
-func slowLog() {
+// Like a real logger it renders its arguments (a middleware that logs itself with %v has its String method
+// called, under whatever locks it holds at that point) - and then takes its time.
+func slowLog(format string, args []interface{}) {
+	_ = fmt.Sprintf(format, args...)
 	if s := simrt.Active(); s != nil {
 		s.Yield()
 	}
 }
 
-func (SlowLogger) Debug(string, ...interface{}) { slowLog() }
-func (SlowLogger) Info(string, ...interface{})  { slowLog() }
-func (SlowLogger) Warn(string, ...interface{})  { slowLog() }
-func (SlowLogger) Error(string, ...interface{}) { slowLog() }
+func (SlowLogger) Debug(f string, a ...interface{}) { slowLog(f, a) }
+func (SlowLogger) Info(f string, a ...interface{})  { slowLog(f, a) }
+func (SlowLogger) Warn(f string, a ...interface{})  { slowLog(f, a) }
+func (SlowLogger) Error(f string, a ...interface{}) { slowLog(f, a) }
